@@ -105,7 +105,7 @@ class Verifier(ExprMixin, CallMixin, Engine):
                 k = z3.Int("k!rev")
                 n = z3.Length(tgt.t)
                 p.pc.append(z3.Length(r) == n)
-                p.pc.append(z3.ForAll([k], z3.Implies(z3.And(0 <= k, k < n), r[k] == tgt.t[n - 1 - k]), patterns=[r[k]]))
+                p.pc.append(z3.ForAll([k], z3.Implies(z3.And(0 <= k, k < n), r[k] == tgt.t[n - 1 - k])))
                 new = VBytes(r, "bytearray")
             else:
                 raise Unsupported(f"bytearray.{name}")
@@ -207,7 +207,7 @@ class Verifier(ExprMixin, CallMixin, Engine):
                 k = z3.Int("k!upd")
                 p.pc.append(z3.Length(new) == n)
                 p.pc.append(new[real] == x)
-                p.pc.append(z3.ForAll([k], z3.Implies(z3.And(0 <= k, k < n, k != real), new[k] == base.t[k]), patterns=[new[k]]))
+                p.pc.append(z3.ForAll([k], z3.Implies(z3.And(0 <= k, k < n, k != real), new[k] == base.t[k])))
                 self.store(target.value, VBytes(new, "bytearray"), p, module)
                 return
             raise Unsupported("subscript store")
@@ -496,7 +496,7 @@ class Verifier(ExprMixin, CallMixin, Engine):
             raise Unsupported("loop else")
         hdr = self.for_header(st, p, module) if is_for else None
         # ---- concrete iteration: unroll
-        if is_for and hdr[0] == "concrete":
+        if is_for and isinstance(hdr[0], str):
             live = [("normal", p, None)]
             out = []
             for item in hdr[1]:
@@ -600,6 +600,8 @@ class Verifier(ExprMixin, CallMixin, Engine):
             if self.feasible(g.pc, gc):
                 b = g.fork(); b.script = []; b.pos = 0
                 b.pc.append(gc)
+                for gname, expr in spec.get("snapshot_each", {}).items():
+                    b.ghost[gname] = copy.deepcopy(self.ev(parse_expr(expr), self.spec_path(b, b.env, old=b.old), module))
                 if is_for:
                     self.store(st.target, elem(b.ghost[ivar].t), b, module)
                 for s2, q2, v2 in self.exec_block(st.body, b, module):
@@ -619,6 +621,8 @@ class Verifier(ExprMixin, CallMixin, Engine):
                             q2.obls.append(Obligation(f"{lname}/decreases", q2.pc, z3.And(variant0 >= 0, v1 < variant0), "decreases", st.lineno, self.cur_name))
                         self.finish_path(q2)
                     elif s2 == "break":
+                        for gname, expr in spec.get("exit_snapshot", {}).items():
+                            q2.ghost[gname] = copy.deepcopy(self.ev(parse_expr(expr), self.spec_path(q2, q2.env, old=q2.old), module))
                         for hint in spec.get("break_hints", []):
                             self.apply_hint(hint, q2, module, lname + "/break_hint")
                         out.append(("normal", q2, None))
@@ -628,6 +632,8 @@ class Verifier(ExprMixin, CallMixin, Engine):
             if self.feasible(g.pc, z3.Not(gc)):
                 x = g.fork(); x.script = []; x.pos = 0
                 x.pc.append(z3.Not(gc))
+                for gname, expr in spec.get("exit_snapshot", {}).items():
+                    x.ghost[gname] = copy.deepcopy(self.ev(parse_expr(expr), self.spec_path(x, x.env, old=x.old), module))
                 for hint in spec.get("exit_hints", []):
                     self.apply_hint(hint, x, module, lname + "/exit_hint")
                 out.append(("normal", x, None))
@@ -784,6 +790,11 @@ class Verifier(ExprMixin, CallMixin, Engine):
             q = self.spec_path(p, env, old=p.old)
             for w, expr in c.witness.items():
                 env[w] = self.ev(parse_expr(expr), q, fi.module)
+            # in postconditions a parameter name denotes the argument value (parameters are rebindable locals in Python);
+            # objects are shared references, so their fields are read in the post-state
+            for pn in p.old:
+                if not isinstance(p.old[pn], VObj):
+                    env[pn] = p.old[pn]
             for hnt in c.exit_hints:
                 self.apply_hint_env(hnt, p, env, fi.module, f"{name}/exit_hint")
             q = self.spec_path(p, env, old=p.old)
